@@ -34,3 +34,10 @@ def c09(tier, seed, mult):
 def c07(tier, seed, mult):
     return run_suite("S-TREE-OUT[C07]", seed + 5, _n(tier, 500, 6000, mult), struct=False,
                      gen_kw={"allow": ("fit", "setmerge", "setthr", "setbf", "reset"), "malformed": 0.0})
+
+
+def c17(tier, seed, mult):
+    return run_suite("S-TREE-OUT[C17 config stream]", seed + 6, _n(tier, 500, 6000, mult), struct=False, oracles=(oracles.C17,),
+                     max_rows=12,
+                     gen_kw={"allow": ("fit", "setmerge", "setthr", "setbf", "reset", "refine"), "objects": 0.3, "malformed": 0.0,
+                             "weights": {"fit": 3, "refine": 1, "setmerge": 7, "setthr": 1, "setbf": 1, "reset": 2}})
